@@ -42,6 +42,8 @@ def simulate(cfg_groups, maxcalls, num, seed, faults=(), moves=(), dev=(), timeo
         if body in seen:
             continue
         seen.add(body)
+        if len(behs) >= 3 * num:          # the simulator evaluates the emitting invariant on every candidate successor: far more histories
+            continue                      # than requested are printed; the first 3*num distinct ones are kept
         try:
             behs.append(normalise(json.loads(json.loads(body))))
         except Exception:
